@@ -315,7 +315,26 @@ impl Prop for C20 {
 		Ok(())
 	}
 
+	fn enumerate(_tier: Tier, shard: usize, nshards: usize, f: &mut dyn FnMut(Case, bool) -> bool) -> Vec<&'static str> {
+		// every LENGTH 0..=1100 of every component, then every 97th up to 70 000 (block-wise scanners)
+		let lens: Vec<usize> = gen::sweep_lengths(2200, 70_000);
+		for (i, n) in lens.iter().enumerate() {
+			if i % nshards != shard {
+				continue;
+			}
+			let x = "x".repeat(*n);
+			for (k, text) in [format!("s://u@h/p?q#{x}"), format!("s://u@h/p?{x}#f"), format!("s://u@h/{x}?q#f"), format!("s://{x}@h/p?q#f"), format!("s://u@{x}:1/p?q#f"), format!("s:{x}/p?q#f"), format!("s://h/a/{x}/b?{x}#{x}"), format!("s://u@h/{x}#f"), format!("s://u@h:1{x}", x = if *n == 0 { String::new() } else { format!("/{}", &x[1..]) }), format!("s{x}://u@h:1/p?q?r#f?g"), format!("s://h/{x}?a=1?b=2")].into_iter().enumerate() {
+				let fam = if (i + k) % 2 == 0 { Fam::Uri } else { Fam::Iri };
+				let kind = if (i + k) % 3 == 0 { Kind::Full } else { Kind::Reference };
+				if !f(Case { fam, kind, text }, true) {
+					return vec![];
+				}
+			}
+		}
+		vec!["every component length 0..=2200, every 97th up to 70 000 and around powers of two / 1000s / 2083 / 65 535, for fragment, query, path, user info, host, first segment and scheme"]
+	}
+
 	fn floors(_tier: Tier) -> Vec<(&'static str, u64)> {
-		vec![("accepted", 70_000), ("rejected", 3_000), ("beyond-inline-buffers", 2_000), ("larger-than-64KiB", 100), ("non-ascii", 10_000), ("kind:reference", 5_000), ("kind:full", 5_000), ("kind:path", 5_000), ("kind:authority", 5_000)]
+		vec![("accepted", 70_000), ("rejected", 3_000), ("beyond-inline-buffers", 2_000), ("larger-than-64KiB", 100), ("non-ascii", 7_000), ("kind:reference", 5_000), ("kind:full", 5_000), ("kind:path", 5_000), ("kind:authority", 5_000)]
 	}
 }
